@@ -267,6 +267,18 @@ def instance_pool(ctx, cirq, rng):
     pool.append(('gen/circuit-op-symbolic-reps', cirq.CircuitOperation(cirq.FrozenCircuit(cirq.X(qs[0])), repetitions=sympy.Symbol('r'), use_repetition_ids=False)))
     pool.append(('gen/circuit-op-expr-reps', cirq.CircuitOperation(cirq.FrozenCircuit(cirq.X(qs[0])), repetitions=sympy.Symbol('r') * 2 + 1, use_repetition_ids=False)))
     pool.append(('gen/duration-symbolic', cirq.Duration(nanos=sympy.Symbol('t'))))
+    import cirq_google as cg_
+    q0_, q1_ = cirq.LineQubit(0), cirq.LineQubit(1)
+    # Pauli sums with a constant (identity) term, numeric and symbolic
+    pool.append(('gen/paulisum-offset', 0.5 * cirq.X(q0_) * cirq.Z(q1_) - 1.5 * cirq.Z(q0_) + 2.0))
+    pool.append(('gen/paulisum-offset-only', cirq.PauliSum.from_pauli_strings([cirq.PauliString(coefficient=3.0)])))
+    pool.append(('gen/paulisum-offset-complex', cirq.Y(q0_) + (1 + 2j)))
+    pool.append(('gen/paulisum-offset-nested', [cirq.X(q0_) + 1, {'k': cirq.Z(q1_) - 0.25}]))
+    # couplers between qids that share a coordinate but not a dimension, in either order
+    for j_, (x_, y_) in enumerate([(cirq.LineQid(0, 3), cirq.LineQid(0, 2)), (cirq.LineQid(0, 2), cirq.LineQid(0, 3)), (cirq.GridQid(1, 1, dimension=3), cirq.GridQubit(1, 1)),
+                                   (cirq.GridQubit(0, 1), cirq.GridQubit(0, 0))]):
+        pool.append((f'gen/coupler-{j_}', cg_.Coupler(x_, y_)))
+        pool.append((f'gen/coupler-op-{j_}', cirq.Circuit(cirq.I(cg_.Coupler(x_, y_))) if x_.dimension == y_.dimension == 2 else cg_.Coupler(y_, x_)))
     for j_ in range(8):   # states whose normalisation is not a fixed point of dividing by the norm once more
         v_ = np.array([complex(rng.gauss(0, 1), rng.gauss(0, 1)) for _ in range(rng.choice([2, 4, 8]))])
         pool.append((f'gen/state-preparation-{j_}', cirq.StatePreparationChannel(v_, name=f'prep{j_}')))
